@@ -12,7 +12,7 @@ from harness import common as C
 
 PROP = "C20"
 TARGETS = ["IbicusModel.Props.C20"]
-GEN = ["Evaluate"]
+GEN = ["Evaluate", "EvaluateConfig"]
 
 GRIDS = [(1, 1), (1, 3), (2, 2), (3, 1)]
 STATS = {"rows_checked_by_position": 0}
@@ -189,6 +189,10 @@ def call(fn, *a, **k):
                 c.clear()
                 c.update(before)
     return out
+
+
+def C_list(xs):
+    return ",".join(xs) if xs else "-"
 
 
 def row(df, key, metric, colname="Bias"):
@@ -411,6 +415,8 @@ def run_case(k, rng, tier, batch, res, problems, n_oracle):
     for bt in ("percentage", "absolute"):
         out = call(marginal.calculate_marginal_bias, obs=[obs, tV], statistics=stats, metrics=mobjs, percentage_or_absolute=bt,
                    raw=[rawV, tV], bc=[bcV, tV])
+        if bt == "absolute":
+            out_abs = out
         for key, cm in (("raw", rawV), ("bc", bcV)):
             for st in stats + ["metric0", "metric1"]:
                 if isinstance(st, str) and st.startswith("metric"):
@@ -442,8 +448,10 @@ def run_case(k, rng, tier, batch, res, problems, n_oracle):
     for (mo, mtxt, ms) in metrics:
         for key, x, yy, tt_ in (("raw", rawV, yV, tV), ("fut", rawF, yF, tF)):
             realcm = out if out[0] == "raise" else ("ok", row(out[1], key, mo.name, "CM"))
-            batch.add("calculate_bias_days_metrics", {**case, "metric": mtxt, "key": key, "column": "CM"}, f"days {mtxt} {yy}", [x], realcm, shape,
-                      dropped_on_inf=False, scale=10.0)
+            for col in ("CM", "Obs", "Bias"):  # Model.Evaluate.daysMetrics
+                realcol = out if out[0] == "raise" else ("ok", row(out[1], key, mo.name, col))
+                batch.add("calculate_bias_days_metrics", {**case, "metric": mtxt, "key": key, "column": col}, f"daysm {col} {mtxt} {yy} {yV}",
+                          [x, obs], realcol, shape, dropped_on_inf=False, scale=10.0)
             why = differs(realcm, ref_days(ms, x, tt_), 10.0)
             if why:
                 problem("calculate_bias_days_metrics", f"mean days per year of {mtxt} ('{key}', {len(set(d.year for d in tt_))} year(s)): {why}",
@@ -453,6 +461,19 @@ def run_case(k, rng, tier, batch, res, problems, n_oracle):
                 why = differs(("ok", o_), ref_days(ms, obs, tV), 10.0) or differs(("ok", b_), realcm[1] - o_, 10.0)
                 if why:
                     problem("calculate_bias_days_metrics", f"Obs / Bias column of {mtxt} ('{key}'): {why}", {"metric": mtxt, "key": key})
+
+    # ---------------- row order of the frames (Model.Evaluate.frameRows, Props.C20.frame_row): exact
+    def frame_tie(what, out_, keys_, labels_):
+        if out_[0] == "ok" and len(set(labels_)) == len(labels_):
+            seq_ = []
+            for _, r_ in out_[1].iterrows():
+                k_, l_ = r_["Correction Method"], r_["Metric"]
+                seq_.append(f"{keys_.index(k_)}.{labels_.index(l_)}" if k_ in keys_ and l_ in labels_ else f"?{k_}.{l_}")
+            batch.exact.append((f"frame {len(keys_)} {len(labels_)}", C_list(seq_), {**case, "what": what, "frame": "row order"}))
+
+    frame_tie("calculate_bias_days_metrics", out, ["raw", "fut"], [m[0].name for m in metrics])
+    frame_tie("calculate_marginal_bias", out_abs, ["raw", "bc"],
+              [("Mean" if st == "mean" else f"{st} qn") for st in stats] + [m[0].name for m in metrics])
 
     # ---------------- _yearly_exceedances: the per-year counts, compared exactly
     for (mo, mtxt, ms) in metrics[:1]:
@@ -530,8 +551,8 @@ def run_case(k, rng, tier, batch, res, problems, n_oracle):
     (m1o, m1t, m1s), (m2o, m2t, m2s) = metrics
     out = call(multivariate.calculate_conditional_joint_threshold_exceedance, m1o, m2o, d=[rawV, bcV, tV])
     real = out if out[0] == "raise" else ("ok", np.asarray(out[1]["Conditional exceedance probability"].iloc[0], dtype=float))
-    batch.add("calculate_conditional_joint_threshold_exceedance", {**case, "m1": m1t, "m2": m2t}, f"chi {m1t} {m2t}", [rawV, bcV], real, shape,
-              dropped_on_inf=False, scale=100.0, factor=100.0)
+    batch.add("calculate_conditional_joint_threshold_exceedance", {**case, "m1": m1t, "m2": m2t}, f"chipct {m1t} {m2t}", [rawV, bcV], real, shape,
+              dropped_on_inf=False, scale=100.0)
     why = differs(real, ref_chi(m1s, m2s, rawV, bcV), 100.0)
     if why:
         problem("calculate_conditional_joint_threshold_exceedance", f"P({m1t} | {m2t}) in percent: {why}", {"m1": m1t, "m2": m2t})
@@ -987,6 +1008,26 @@ def oracle_relations(rng, case, data, problem, obs, rawV, rawF, bcV, bcF, tV, tF
     if a[0] != b[0] or (a[0] == "ok" and any(not np.array_equal(x[2], y[2], equal_nan=True) for x, y in zip(allrows(a), allrows(b)))):
         problem("calculate_marginal_bias", "result changes with the number of years the dates span", {"relation": "years_independence"})
 
+    # (5b) independence of the record length (Props.C20.record_length_independent): the same record tiled 3 times along
+    #      time gives the same mean / metric bias and trend bias (dyadic data: sums and counts are exact)
+    t3x = np.concatenate([tV, tV, tV])
+    tile3 = lambda a: np.concatenate([a, a, a], axis=0)  # noqa: E731
+    for bt in ("absolute", "percentage"):
+        a = call(marginal.calculate_marginal_bias, obs=[obs, tV], statistics=["mean"], metrics=mobjs, percentage_or_absolute=bt, raw=[rawV, tV])
+        b = call(marginal.calculate_marginal_bias, obs=[tile3(obs), t3x], statistics=["mean"], metrics=mobjs, percentage_or_absolute=bt,
+                 raw=[tile3(rawV), t3x])
+        if a[0] != b[0] or (a[0] == "ok" and (len(a[1]) != len(b[1]) or any(
+                not np.allclose(x[2], y[2], rtol=1e-12, atol=1e-12, equal_nan=True) for x, y in zip(allrows(a), allrows(b))))):
+            problem("calculate_marginal_bias", f"{bt} bias of the mean / the metrics changes when the record is repeated 3 times along time",
+                    {"relation": "record_length"})
+    a = call(trend.calculate_future_trend_bias, raw_validate=rawV, raw_future=rawF, statistics=["mean"], metrics=mobjs, bc=[bcV, bcF])
+    b = call(trend.calculate_future_trend_bias, raw_validate=tile3(rawV), raw_future=tile3(rawF), statistics=["mean"], metrics=mobjs,
+             bc=[tile3(bcV), tile3(bcF)])
+    if a[0] != b[0] or (a[0] == "ok" and (len(a[1]) != len(b[1]) or any(
+            not np.allclose(x[2], y[2], rtol=1e-9, atol=1e-9, equal_nan=True) for x, y in zip(allrows(a), allrows(b))))):
+        problem("calculate_future_trend_bias", "trend bias of the mean / the metrics changes when the records are repeated 3 times along time",
+                {"relation": "record_length"})
+
     # (6) RMSE between correlation maps: a data set against itself is 0
     if all(np.unique(obs[:, i, j]).size > 1 for i in range(I) for j in range(J)):
         out = call(correlation.rmse_spatial_correlation_distribution, variable="tas", obs_data=obs, me=obs.copy())
@@ -1138,6 +1179,10 @@ def run(tier, res, force_search=False):
         "the conditional joint exceedance is reported in percent (the code multiplies chi by 100; docstring says probability)",
         "on grids with more than one location, where some location trips a multiplicative zero guard, the check accepts both a ZeroDivisionError of the whole call and non-finite values at those locations (counted as mixed_guard_accepted); a 1x1 grid must raise",
         "quantile-based denominators that are exactly 0 in the model are accepted as ties (float lerp can differ in the last bit)",
+        "decided by the oracle on the real code only (the value-level model cannot exhibit them): arguments / default-argument objects left "
+        "unchanged and repeated calls identical (Python object aliasing and mutable defaults; the model's functions are pure), independence of "
+        "logger verbosity / print options (process state), integer width of the instance counts (the model counts in unbounded Int; "
+        "Props.C20.record_length_independent states the value-level fact), inf-vs-NaN row dropping and float rounding at a zero denominator",
         "rows of the returned frames are in the order debiaser (keyword order) x statistics x metrics; the positional oracle uses metric lists whose names collide (default names, same name, same object twice)",
     ]
 
@@ -1187,7 +1232,7 @@ def run(tier, res, force_search=False):
         for (ln, want, cs), got in zip(batch.exact, eo):
             res.cov["traces_validated_against_impl"] += 1
             if want != got:
-                mismatches.append({"op": "_yearly_exceedances", "case": cs, "why": f"impl {want} model {got}"})
+                mismatches.append({"op": cs.get("what", "_yearly_exceedances"), "case": cs, "why": f"impl {want} model {got}"})
         ro = out[len(batch.lines):]
         for it in rex:
             res.cov["traces_validated_against_impl"] += 1
